@@ -249,6 +249,46 @@ fn renko_case(b: f64, source: Source, seed: u64, steps: usize, r: &mut Report) {
 				}
 			}
 		}
+		// partially consumed output: every consumer must see exactly the bricks not yet taken
+		for k in 0..=announced.min(6) {
+			let res = guard(|| {
+				let adv = || {
+					let mut it = out.clone();
+					for _ in 0..k {
+						it.next();
+					}
+					it
+				};
+				let rest: Vec<RenkoBlock> = adv().collect();
+				let folded: Vec<RenkoBlock> = adv().fold(Vec::new(), |mut v, b| {
+					v.push(b);
+					v
+				});
+				(rest, folded, adv().last(), adv().count(), adv().len(), adv().size_hint(), adv().nth(0), adv().skip(1).next())
+			});
+			match res {
+				Ok((rest, folded, last, count, len, hint, nth0, second)) => {
+					let want = &bricks[k.min(bricks.len())..];
+					let bad = if rest != want {
+						Some("collect")
+					} else if folded != want {
+						Some("fold")
+					} else if last != want.last().copied() {
+						Some("last")
+					} else if count != want.len() || len != want.len() || hint != (want.len(), Some(want.len())) {
+						Some("count-len-size_hint")
+					} else if nth0 != want.first().copied() || second != want.get(1).copied() {
+						Some("nth-skip")
+					} else {
+						None
+					};
+					if let Some(what) = bad {
+						r.violate(&format!("C17|RenkoOutput|iterator-protocol|partially-consumed|{what}"), "a consumer of a partially consumed RenkoOutput disagrees with the bricks not yet taken", || json!({"case": case("partial"), "taken": k, "len": announced}));
+					}
+				}
+				Err(p) => r.violate(&format!("C17|RenkoOutput|iterator-protocol|partially-consumed|panic:{}", p.class()), &p.msg, || json!({"case": case("partial"), "taken": k, "len": announced})),
+			}
+		}
 		// emission exactly when a threshold has been reached
 		let v = Ap::exact(value);
 		let upa = Ap::rounded(up_thr, 4.0);
